@@ -228,19 +228,29 @@ class ImplWorld:
                     raise Boom("w")
                 f = W.loop.create_future()
                 ctx.futs[tid] = f
-                try:
-                    await f
-                except asyncio.CancelledError:
-                    ctx.ev.append(f"X{tid}")
-                    if swallow:
-                        ctx.ev.append(f"R{tid}")
-                        return val
-                    raise
-                except Boom:
-                    ctx.ev.append(f"E{tid}")
-                    raise
-                ctx.ev.append(f"R{tid}")
-                return val
+                resumed = False
+                while True:
+                    try:
+                        await f
+                    except asyncio.CancelledError:
+                        if swallow == "2" and not resumed:
+                            # a worker that finishes what it is doing: it catches the first CancelledError and goes on
+                            # awaiting (a fresh future); for the pool it is a running task like any other
+                            resumed = True
+                            ctx.ev.append(f"Y{tid}")
+                            f = W.loop.create_future()
+                            ctx.futs[tid] = f
+                            continue
+                        ctx.ev.append(f"X{tid}")
+                        if swallow == "1":
+                            ctx.ev.append(f"R{tid}")
+                            return val
+                        raise
+                    except Boom:
+                        ctx.ev.append(f"E{tid}")
+                        raise
+                    ctx.ev.append(f"R{tid}")
+                    return val
             finally:
                 ctx.live.discard(tid)
         if hint is not None:
@@ -345,7 +355,7 @@ class ImplWorld:
                 wm, sw, ecb, ccb, bad, coro, hooks = toks[4:11]
                 hk = parse_hooks(hooks)
                 holder = {"g": None}
-                f = self.mkworker(ctx, wm, sw == "1", hk["s"], holder, coro == "1")
+                f = self.mkworker(ctx, wm, sw, hk["s"], holder, coro == "1")
                 ecb_f = self.mkcb(ctx, "end", ecb, hk["e"], holder)
                 ccb_f = self.mkcb(ctx, "cancel", ccb, hk["c"], holder)
                 a = (1, 2, 3) if bad == "1" else (7,)
@@ -398,7 +408,7 @@ class ImplWorld:
                 g = dec_name(g)
                 hk = parse_hooks(hooks)
                 holder = {"g": None}
-                f = self.mkworker(ctx, wm, sw == "1", hk["s"], holder, coro == "1")
+                f = self.mkworker(ctx, wm, sw, hk["s"], holder, coro == "1")
                 args = (1, 2, 3) if bad == "1" else (7,)
                 ecb_f = self.mkcb(ctx, "end", ecb, hk["e"], holder)
                 ccb_f = self.mkcb(ctx, "cancel", ccb, hk["c"], holder)
@@ -421,7 +431,7 @@ class ImplWorld:
                 hk = parse_hooks(hooks)
                 holder = {"g": None}
                 its = "" if items == "-" else items
-                f = self.mkworker(ctx, wm, sw == "1", hk["s"], holder, coro == "1",
+                f = self.mkworker(ctx, wm, sw, hk["s"], holder, coro == "1",
                                   hint=(m, stars) if "3" in its and stars else None)
                 W = self
 
